@@ -13,6 +13,6 @@ CMD=$(cat "$DIR/demo_cmd.txt" | sed "s#$AG/mutants/$PROP#$WT/mutants/x#g; s#$AG#
 ( cd "$WT/mutants/x" && sh -c "$CMD" ) > "$WT/clean.out" 2>&1; RC_CLEAN=$?
 git -C "$WT" apply "$DIR/patch.diff" || { echo "$NAME apply-failed"; exit 2; }
 ( cd "$WT/mutants/x" && timeout 300 sh -c "$CMD" ) > "$WT/patched.out" 2>&1; RC_PATCHED=$?
-PINNED=$(/tmp/mut/run_pinned_tests.sh "$WT" 2>&1 | grep -E "PASSED|FAILED" | tail -1)
+PINNED=$(/verif/tools/run_pinned_tests.sh "$WT" 2>&1 | grep -E "PASSED|FAILED" | tail -1)
 echo "$NAME clean_rc=$RC_CLEAN patched_rc=$RC_PATCHED pinned='$PINNED'"
 git -C /repo worktree remove --force "$WT"
